@@ -145,11 +145,14 @@ def run_cases(args):
             assert cdir.startswith(root), cdir
             path = os.path.join(cdir, app + ".toml")
             dtxt = to_toml(d, rnd, False, (), styles and rnd.random() < 0.5)
-            rec = {"d": d, "has_file": has_file, "u": u if has_file else table([]), "out": "ok", "file_written": False, "later": table([])}
+            rec = {"d": d, "has_file": has_file, "u": u if has_file else table([]), "out": "ok", "file_written": False, "later": table([]),
+                   "_texts": {"default": dtxt, "user": ""}}
             before = None
             if has_file:
+                utxt = to_toml(u, rnd, comments, (), styles) + "\n"
+                rec["_texts"]["user"] = utxt
                 with open(path, "w") as f:
-                    f.write(to_toml(u, rnd, comments, (), styles) + "\n")
+                    f.write(utxt)
                 before = open(path, "rb").read()
             try:
                 res = C.load_config_toml(app, dtxt)
@@ -164,6 +167,7 @@ def run_cases(args):
                     rec["file_same"] = (open(path, "rb").read() if os.path.isfile(path) else b"") == first
             except Exception as e:
                 rec["out"] = type(e).__name__
+                rec["_texts"]["error"] = repr(e)[:300]
                 rec.setdefault("result", table([]))
                 rec.setdefault("file_same", True)
             out.append(rec)
